@@ -13,6 +13,7 @@ P = "param.parameterized."
 
 
 def run(ctx):
+    ctx.rule("R12.t", "class-based context managers restore on every path: every attribute that __enter__ assigns (shared_parameters._share: while it is on, new instances share their instantiate=True values instead of copying them) is assigned again on every path through __exit__", floor=1)
     ctx.rule("R12.a", "in every Parameter method that receives `obj`, each write to self.default / a class-level slot lies on paths where `obj is None` holds (the instance route never writes class storage)", floor=4)
     ctx.rule("R12.b", "per-instance Parameter objects have a single producer: only _instantiated_parameter writes <instance>._param__private.params[key], and it writes the result of _instantiate_param_obj", floor=1)
     ctx.rule("R12.c", "_instantiate_param_obj returns a copy.copy of the class Parameter, gives it fresh watchers and re-copies every mutable-container slot other than default", floor=3)
@@ -261,6 +262,8 @@ def run(ctx):
 
     from checks.shared import memo_not_mutated_in_place
     memo_not_mutated_in_place(ctx, "R12.r")
+    from checks.shared import class_cm_restores
+    class_cm_restores(ctx, "R12.t")
     from checks import instcopy_model
     instcopy_model.report(ctx, "R12.p")
     from checks import namespace_model
